@@ -31,6 +31,13 @@ Section C08.
   Theorem C08_sparse_from_vec_partial : forall s, NoDup (map fst s) ->
     (forall t, In t s -> snd t <> f0 F) -> oks F (s_from_vec F s) (seval F s).
   Proof. exact (s_from_vec_spec_partial F Fth eqb_ok). Qed.
+  (* after the repair of F28 (retain instead of a trailing pop): zero coefficients anywhere *)
+  Theorem C08_sparse_from_vec : forall s, NoDup (map fst s) -> oks F (s_from_vec F s) (seval F s).
+  Proof. exact (s_from_vec_spec F Fth eqb_ok). Qed.
+  (* ANY raw term list (repeated degrees included): no panic, exactly the non-zero terms, same sum *)
+  Theorem C08_sparse_from_vec_total : forall s, exists r, s_from_vec F s = ROk r /\
+    (forall t, In t r <-> (In t s /\ snd t <> f0 F)) /\ (forall x, seval F r x = seval F s x).
+  Proof. exact (s_from_vec_total F Fth eqb_ok). Qed.
   Theorem C08_evaluate : forall p x, d_evaluate F p x = eval F p x.
   Proof. exact (d_evaluate_spec F Fth eqb_ok). Qed.
   Theorem C08_sparse_evaluate : forall s x, scanon F s -> s_evaluate F s x = ROk (seval F s x).
